@@ -573,7 +573,7 @@ Qed.
 
 Theorem model_spec_ok : forall i, wf i = true -> spec_ok i (model i) = true.
 Proof.
-  intros [s|a b|d s|late log ids chain] Hwf; cbn [model].
+  intros [s|a b|d s|late log ids chain|ti rev pok log ids chain] Hwf; cbn [model].
   - cbn [spec_ok]. apply parse_ok_model.
   - cbn [spec_ok wf] in *. apply andb_true_iff in Hwf. destruct Hwf as [Ha Hb].
     rewrite subset_decl_is_subset by assumption. apply Bool.eqb_reflx.
@@ -587,7 +587,22 @@ Proof.
   - cbn [wf] in Hwf. destruct late.
     + now apply verify_obs_ok.
     + destruct (validate_ids ids) eqn:V; try reflexivity. now apply verify_obs_ok.
+  - cbn [wf] in Hwf. apply andb_true_iff in Hwf. destruct Hwf as [Hc _].
+    destruct (validate_ids ids) eqn:V; try reflexivity. destruct ti.
+    + cbn [spec_ok]. destruct pok, log; reflexivity.
+    + pose proof (verify_obs_ok false log ids chain Hc) as H. unfold verify_obs in *. cbn [spec_ok] in *. exact H.
 Qed.
+
+(* C04_plugin_guard: the native check is performed iff the plugin does not
+   advertise the trusted-identity capability *)
+Theorem plugin_guard_native : forall rev pok log ids chain,
+  model (IPlugin false rev pok log ids chain) = model (IVerify false log ids chain).
+Proof. reflexivity. Qed.
+
+Theorem plugin_guard_owned : forall rev pok log ids chain, validate_ids ids = WOk ->
+  model (IPlugin true rev pok log ids chain) =
+  OVerify (if pok then VPass else VPluginFail) (negb log && negb pok).
+Proof. intros rev pok log ids chain H. cbn [model]. rewrite H. destruct pok; reflexivity. Qed.
 
 (* strict level: the signature is rejected exactly when the identity check fails *)
 Theorem strict_rejects : forall ids chain v rej,
